@@ -81,6 +81,14 @@ fn __verif_n_c14_mutations() {
             }
             mutants_at(&p, &|i| pick.contains(&i))
         } else { mutants(&p) };
+        // "seeded multi-point mutants": a fixed sample of two-point mutants of the small programs
+        let mut ms = ms;
+        if !name.starts_with("sample:") && !name.starts_with("e2e-sample:") {
+            let (k1, k2) = if thorough { (150, 3) } else { (40, 2) };
+            for (w1, p1) in sierra_mutants::sample_mutants(&p, k1, &mut seed) {
+                for (w2, p2) in sierra_mutants::sample_mutants(&p1, k2, &mut seed) { ms.push((format!("{w1} THEN {w2}"), p2)); }
+            }
+        }
         // run in chunks on big-stack threads (deep recursion in solvers is itself a finding, reported as a panic)
         for (what, q) in ms {
             if let Ok(only) = std::env::var("VERIF_ONLY_MUTANT") { if format!("{name}: {what}") != only { continue; } }
@@ -99,13 +107,13 @@ fn __verif_n_c14_mutations() {
             }
         }
     }
-    let bound = format!("{cases} single mutations of small valid programs; outcomes {:?}", outcomes);
+    let bound = format!("{cases} single and sampled two-point mutations of valid programs; outcomes {:?}", outcomes);
     // one line per DISTINCT panic site (message), with the first input that reaches it
     let mut seen = std::collections::BTreeSet::new();
     for (input, msg) in &fails {
         let key: String = msg.chars().take(110).collect::<String>().replace('"', "'").replace('\n', " ");
         if !seen.insert(key.clone()) { continue; }
-        println!("VERIF-N id=N/n_c14_mutations/pipeline_total:{} status=fail key=\"{key}\" input=\"{}\" detail=\"real pipeline panicked on `{}`: {}\" bound=\"single mutations\"", seen.len(), input.replace('"', "'"), input.replace('"', "'"), msg.replace('"', "'").replace('\n', " ").chars().take(200).collect::<String>());
+        println!("VERIF-N id=N/n_c14_mutations/pipeline_total:{} status=fail key=\"{key}\" input=\"{}\" detail=\"real pipeline panicked on `{}`: {}\" bound=\"single and two-point mutations\"", seen.len(), input.replace('"', "'"), input.replace('"', "'"), msg.replace('"', "'").replace('\n', " ").chars().take(200).collect::<String>());
     }
     println!("VERIF-N id=N/n_c14_mutations/pipeline_total status=ok cases={cases} distinct={} bound=\"{}; {} mutants panicked ({} distinct sites, reported separately)\"", outcomes.len().max(2), bound.replace('"', "'"), fails.len(), seen.len());
 }
